@@ -123,15 +123,25 @@ Fixpoint digest_acc (i acc : Z) (ss : list (list Z)) : Z :=
 Definition digest (ss : list (list Z)) : Z := digest_acc 1 0 ss mod 2 ^ 64.
 
 (** the nodes of a segment (l, start, count): the l-bit prefixes start, start+1, ... *)
-Fixpoint zrange (n : nat) (x : Z) : list Z :=
-  match n with O => [] | S k => x :: zrange k (x + 1) end.
-Definition seg_nodes (l start count : Z) : list node :=
-  map (node_of (Z.to_nat l)) (zrange (Z.to_nat count) start).
+(** x, x+step, x+2*step, ... (n values) *)
+Fixpoint zrange (n : nat) (x step : Z) : list Z :=
+  match n with O => [] | S k => x :: zrange k (x + step) step end.
+(** the SAMPLED prefixes of a segment (start, count): start, start+stride, ... below start+count *)
+Definition seg_xs (start count stride : Z) : list Z :=
+  zrange (Z.to_nat ((count + stride - 1) / stride)) start stride.
+Definition seg_nodes (l start count stride : Z) : list node :=
+  map (node_of (Z.to_nat l)) (seg_xs start count stride).
 
-(** a bulk session: segments (h, l, start, count); observed: the digest of all the texts in
-    order, and the texts of the first K nodes rendered AGAIN after the bulk *)
-Definition bulk_nodes (segs : list (Z * Z * Z * Z)) : list node :=
-  flat_map (fun s => match s with (_, l, start, count) => seg_nodes l start count end) segs.
-Definition bulk_spec (segs : list (Z * Z * Z * Z)) (K : Z) : Z * list (list Z) :=
-  let ss := map node_str (bulk_nodes segs) in
-  (digest ss, firstn (Z.to_nat K) ss).
+(** a bulk session: every l-bit prefix start .. start+count-1 of every segment (h, l, start, count) is
+    rendered, in order (this is what fills a cache); observed: the digest of the texts of every
+    stride-th prefix of each segment, and the texts of the first K prefixes of the first segment
+    rendered AGAIN after the bulk *)
+Definition bulk_nodes (segs : list (Z * Z * Z * Z)) (stride : Z) : list node :=
+  flat_map (fun s => match s with (_, l, start, count) => seg_nodes l start count stride end) segs.
+Definition first_nodes (segs : list (Z * Z * Z * Z)) (K : Z) : list node :=
+  match segs with
+  | [] => []
+  | (_, l, start, count) :: _ => seg_nodes l start (Z.min K count) 1
+  end.
+Definition bulk_spec (segs : list (Z * Z * Z * Z)) (K stride : Z) : Z * list (list Z) :=
+  (digest (map node_str (bulk_nodes segs stride)), map node_str (first_nodes segs K)).
